@@ -83,6 +83,7 @@ class Interp:
         self.oracle = oracle  # condition key -> bool ; missing keys are recorded
         self.asked = []
         self.uid = 0
+        self.opaque_calls = []
         self.overlay = {}
         self.depth = 0
 
@@ -489,6 +490,11 @@ class Interp:
             return Obj("%s(%s)" % (fname, ",".join(fmt(a) for a in args)))
         if fname in ("ColangSyntaxError", "NotImplementedError", "ColangRuntimeError", "Exception"):
             return Obj("exc")
+        if fname in self.funcs and all(a is None or isinstance(a, (Obj, Sym, str, int, bool)) for a in list(args) + list(kw.values())):
+            # a module-level helper that only receives (parts of) the symbolic input or scalars: it cannot touch the list being emitted;
+            # its effect on the input is outside the template and its result is opaque
+            self.opaque_calls.append((fname, e.lineno))
+            return Obj("%s(%s)" % (fname, ",".join(fmt(a) for a in args)))
         raise AnalysisError("emit2: call of `%s` not modelled (`%s`)" % (fname, src(e)[:70]))
 
 
